@@ -90,10 +90,22 @@ impl NodeIds {
 }
 
 /// one operation of a thread program; returns the observation
+thread_local! {
+    /// per thread, parallel to its stack of open entries: virtual time before / after the build call, resource
+    static OPEN_TIMES: std::cell::RefCell<Vec<(u64, u64, String)>> = std::cell::RefCell::new(Vec::new());
+}
+/// per resource: sum over the exited entries of a lower and an upper bound of the entry's own round trip (ms)
+static RT_BOUNDS: Mutex<Vec<(String, u64, u64)>> = Mutex::new(Vec::new());
+fn now_ms() -> u64 {
+    verif_clock::now_ns().unwrap_or(0) / 1_000_000
+}
+
 fn thread_op(case_no: u64, op: &Op, entries: &mut Vec<EntryStrongPtr>, node_ids: &Arc<Mutex<NodeIds>>) -> String {
     match op.name.as_str() {
         "build" => {
             let res = res_name(case_no, &op.s("res"));
+            let res_key = res.clone();
+            let t_before = now_ms();
             let dir = if op.get("dir") == Some("out") { TrafficType::Outbound } else { TrafficType::Inbound };
             match EntryBuilder::new(res).with_traffic_type(dir).with_batch_count(op.u_or("batch", 1) as u32).build() {
                 Ok(e) => {
@@ -104,6 +116,7 @@ fn thread_op(case_no: u64, op: &Op, entries: &mut Vec<EntryStrongPtr>, node_ids:
                         None => "-".into(),
                     };
                     entries.push(e);
+                    OPEN_TIMES.with(|o| o.borrow_mut().push((t_before, now_ms(), res_key.clone())));
                     format!("pass:n{}", nid)
                 }
                 Err(err) => {
@@ -122,7 +135,20 @@ fn thread_op(case_no: u64, op: &Op, entries: &mut Vec<EntryStrongPtr>, node_ids:
                 if op.get("err") == Some("1") {
                     e.set_err(sentinel_core::Error::msg("biz"));
                 }
+                // bounds on this entry's own round trip from the virtual clock read around its build and its exit
+                let times = OPEN_TIMES.with(|o| o.borrow_mut().pop());
+                let t_exit_before = now_ms();
                 e.exit();
+                let t_exit_after = now_ms();
+                if let Some((tb0, tb1, res)) = times {
+                    let mut m = RT_BOUNDS.lock().unwrap();
+                    if !m.iter().any(|b| b.0 == res) {
+                        m.push((res.clone(), 0, 0));
+                    }
+                    let b = m.iter_mut().find(|b| b.0 == res).unwrap();
+                    b.1 += t_exit_before.saturating_sub(tb1);
+                    b.2 += t_exit_after.saturating_sub(tb0);
+                }
                 "ok".into()
             }
             None => "none".into(),
@@ -175,7 +201,12 @@ impl CaseExec for Exec {
                 let mut o = op.clone();
                 o.name = if op.name == "sbuild" { "build".into() } else { "exit".into() };
                 let ids = self.setup_nodes.clone();
-                thread_op(self.case_no, &o, &mut self.setup_entries, &ids)
+                // the listener notifications this very call caused: the setup is sequential, so the Spec knows at which
+                // virtual time the breaker was opened before the schedule starts (its retry deadline; seed C16-f)
+                let before = self.events.lock().unwrap().len();
+                let r = thread_op(self.case_no, &o, &mut self.setup_entries, &ids);
+                let new: Vec<String> = self.events.lock().unwrap()[before..].to_vec();
+                if new.is_empty() { r } else { format!("{} evs={}", r, new.join(",")) }
             }
             "touch" => {
                 let res = res_name(self.case_no, &op.s("res"));
@@ -293,14 +324,19 @@ impl CaseExec for Exec {
             "node" => {
                 let res = res_name(self.case_no, &op.s("res"));
                 match stat::get_resource_node(&res) {
-                    Some(n) => format!(
-                        "conc={} pass={} block={} complete={} rt={}",
-                        n.current_concurrency(),
-                        n.sum(MetricEvent::Pass),
-                        n.sum(MetricEvent::Block),
-                        n.sum(MetricEvent::Complete),
-                        n.sum(MetricEvent::Rt)
-                    ),
+                    Some(n) => {
+                        let (lo, hi) = RT_BOUNDS.lock().unwrap().iter().find(|b| b.0 == res).map(|b| (b.1, b.2)).unwrap_or((0, 0));
+                        format!(
+                            "conc={} pass={} block={} complete={} rt={} rtlo={} rthi={}",
+                            n.current_concurrency(),
+                            n.sum(MetricEvent::Pass),
+                            n.sum(MetricEvent::Block),
+                            n.sum(MetricEvent::Complete),
+                            n.sum(MetricEvent::Rt),
+                            lo,
+                            hi
+                        )
+                    }
                     None => "none".into(),
                 }
             }
